@@ -526,6 +526,22 @@ def stop_recording():
 _RESETTERS = []
 
 
+def _plain(x, depth=0):
+    import types
+
+    if x is None or type(x) in (bool, int, float, str, bytes):
+        return True
+    if isinstance(x, (types.FunctionType, types.BuiltinFunctionType, type, types.ModuleType)):
+        return True
+    if depth > 6:
+        return False
+    if type(x) in (list, tuple, set, frozenset):
+        return all(_plain(y, depth + 1) for y in x)
+    if type(x) is dict:
+        return all(_plain(k, depth + 1) and _plain(v, depth + 1) for k, v in x.items())
+    return False
+
+
 def discover_state():
     """Find every piece of module-level and class-level state in the loaded mingus modules: memo tables (reset to
     empty = cold), the fft position memory, class-level mutable defaults, and - generically - every other
@@ -549,6 +565,10 @@ def discover_state():
                 _RESETTERS.append((mod, attr, "value", None))
                 found.append("%s.%s" % (name, attr))
             elif type(val) in (dict, list, set):
+                # only plain data: a table holding objects without value equality (the registered tunings) cannot be
+                # compared with its snapshot, and restoring it would replace the objects other modules hold
+                if not _plain(val):
+                    continue
                 try:
                     snap = copy.deepcopy(val)
                 except Exception:
